@@ -109,6 +109,11 @@ func relayBackend(w http.ResponseWriter, r *http.Request) {
 		w.Header().Set("Content-Encoding", "gzip")
 	case "no_ct":
 		w.Header()["Content-Type"] = nil
+	case "own_ids":
+		// a backend that stamps identifiers of its own into the reply
+		w.Header().Set("Content-Type", "text/plain")
+		w.Header().Set("X-Request-ID", "backend-own-rid")
+		w.Header().Set("X-Trace-ID", "backend-own-tid")
 	}
 	status := 200
 	if strings.HasPrefix(c.d(6), "103+") {
@@ -168,7 +173,15 @@ type respSeen struct {
 	Hdrs    []hv   `json:"hdrs"`
 	Body    string `json:"body"`
 	Framing string `json:"framing"`
+	First   idv    `json:"first"` // first value of each ID header on the final response
 }
+
+type idv struct {
+	Rid string `json:"rid"`
+	Tid string `json:"tid"`
+}
+
+func firstIDs(h http.Header) idv { return idv{Rid: h.Get("X-Request-ID"), Tid: h.Get("X-Trace-ID")} }
 
 func buildRequest(c *relayCase, key, targetPrefix string) []byte {
 	var b bytes.Buffer
@@ -303,9 +316,9 @@ func relayExchange(c *relayCase, which, addr, prefix string) (*respSeen, *exchan
 	}
 	resp.Body.Close()
 	if readErr != "" {
-		return &respSeen{Interim: interim, Status: resp.StatusCode, Hdrs: headerSet(resp.Header, ""), Body: digest(body), Framing: framing}, ex, readErr
+		return &respSeen{Interim: interim, Status: resp.StatusCode, Hdrs: headerSet(resp.Header, ""), Body: digest(body), Framing: framing, First: firstIDs(resp.Header)}, ex, readErr
 	}
-	return &respSeen{Interim: interim, Status: resp.StatusCode, Hdrs: headerSet(resp.Header, ""), Body: digest(body), Framing: framing}, ex, ""
+	return &respSeen{Interim: interim, Status: resp.StatusCode, Hdrs: headerSet(resp.Header, ""), Body: digest(body), Framing: framing, First: firstIDs(resp.Header)}, ex, ""
 }
 
 type relayEnv struct {
